@@ -1,6 +1,7 @@
 import ErrModel.Props.C08
 import ErrModel.Props.C13
 import ErrModel.Proofs.Regular
+import ErrModel.Generated.CtorFacts
 /-
   C10 — Error() composes predictably; annotations are transparent; nil stays nil.
 
@@ -141,5 +142,56 @@ theorem C10_join_only_nils (n : Nat) (st : Stack) (es : List (Option Err)) (h : 
 theorem C10_leaf_nonnil_new (n : Nat) (rs : RStr) (st : Stack) : (cNew n rs st).isSome = true := rfl
 theorem C10_leaf_nonnil_newfE (n : Nat) (rs : RStr) (st : Stack) (l : List Err) : (cNewfE n rs st l).isSome = true := rfl
 theorem C10_leaf_nonnil_assertionFailedf (n : Nat) (rs : RStr) (st : Stack) : (cAssertionFailedf n rs st).isSome = true := rfl
+
+
+/-! ## nil stays nil, over the source's own constructor table
+
+`Generated/CtorFacts.lean` lists every function `(… err error …) error` of /repo's current
+source with what its body does with a nil error: an explicit guard first, a pipeline of calls to
+other functions of the table, or something the extractor cannot classify.  `CtorProg.nilSafe`
+is a verified checker (`CtorProg.nilSafe_sound`). -/
+
+/-- exported functions that take and return an error but are not wrapper constructors, or whose
+    nil behaviour the property itself states differently -/
+def nilExempt : List Str := [
+  b!"errbase.UnwrapOnce", b!"errbase.UnwrapAll",            -- observers (type switch on the error)
+  b!".UnwrapOnce", b!".UnwrapAll", b!".Cause", b!".Unwrap",   -- their aliases in the root package
+  b!"secondary.CombineErrors", b!".CombineErrors"]           -- CombineErrors(nil, e) = e (stated by the property)
+
+/-- every other exported function of the current source is accepted by the checker -/
+theorem C10_ctor_table : CtorProg.checkAll CtorProg.ctors nilExempt = true := by decide
+
+/-- hence it returns nil when its error argument is nil, whatever the unclassified functions do -/
+theorem C10_nil_stays_nil_all (i : Nat) (c : CtorProg.Ctor) (hi : CtorProg.ctors[i]? = some c)
+    (hexp : c.exported = true) (hne : nilExempt.contains c.name = false) (unk : Nat → Bool → Bool) :
+    CtorProg.eval CtorProg.ctors unk CtorProg.fuel i true = some true := by
+  have hall := C10_ctor_table
+  simp only [CtorProg.checkAll, List.all_eq_true] at hall
+  have hlt : i < CtorProg.ctors.length := by
+    rcases Nat.lt_or_ge i CtorProg.ctors.length with h | h
+    · exact h
+    · rw [List.getElem?_eq_none h] at hi; cases hi
+  have := hall i (List.mem_range.mpr hlt)
+  simp only [hi, hexp, hne, Bool.not_true, Bool.false_or] at this
+  exact CtorProg.nilSafe_sound CtorProg.ctors unk CtorProg.fuel i this
+
+/-- the constructors the property names are all in the table (so that turning one of them into
+    something the extractor no longer lists cannot make the table check vacuous) -/
+def nilRequired : List Str := [
+  b!".Wrap", b!".Wrapf", b!".WrapWithDepth", b!".WrapWithDepthf", b!".WithStack", b!".WithStackDepth",
+  b!".WithMessage", b!".WithMessagef", b!".WithHint", b!".WithHintf", b!".WithDetail", b!".WithDetailf",
+  b!".WithIssueLink", b!".WithTelemetry", b!".WithDomain", b!".WithContextTags", b!".WithAssertionFailure",
+  b!".WithSafeDetails", b!".WithSecondaryError", b!".Mark", b!".Handled", b!".HandledWithMessage", b!".Opaque",
+  b!".HandledInDomain", b!".HandledInDomainWithMessage", b!".HandleAsAssertionFailure",
+  b!".HandleAsAssertionFailureDepth", b!".NewAssertionErrorWithWrappedErrf",
+  b!"barriers.Handled", b!"barriers.HandledWithMessage", b!"barriers.HandledWithMessagef", b!"barriers.HandledWithSafeMessage",
+  b!"exthttp.WrapWithHTTPCode", b!"extgrpc.WrapWithGrpcCode", b!"markers.Mark", b!"secondary.WithSecondaryError",
+  b!"errutil.WrapWithDepth", b!"errutil.WrapWithDepthf", b!"withstack.WithStackDepth", b!"domains.WithDomain"]
+theorem C10_ctor_table_complete : CtorProg.hasAll CtorProg.ctors nilRequired = true := by decide
+
+/-- the checker is not vacuous: it rejects an unguarded constructor and a pipeline through one -/
+theorem C10_checker_rejects :
+    CtorProg.checkAll [⟨b!"a.F", true, 0, .forward [(1, 0)]⟩, ⟨b!"a.g", false, 0, .none⟩] [] = false ∧
+    CtorProg.checkAll [⟨b!"a.F", true, 0, .forward [(1, 1)]⟩, ⟨b!"a.G", true, 0, .guard⟩] [] = false := by decide
 
 end ErrModel
